@@ -354,7 +354,7 @@ def pythify(rng, line):
     cur = {k: max(1, c["banks"][k]["price"] * 10 ** 8 // ONE) for k in st}
     ops = []
     for o in c["ops"]:
-        if o[0] in (30, 31, 32, 33, 34, 35, 36, 37):
+        if o[0] in (30, 31, 32, 33, 34, 35, 36, 37, 38):
             continue          # fixture ops of the hops suite (risk admin / bank flags) do not exist in the risk suite
         if o[0] == 19 and o[1] in st:
             p = max(1, o[2] * 10 ** 8 // ONE)
